@@ -1,60 +1,8 @@
 """Reference implementations for mchap.assemble.likelihood (parsed, never imported); compared with the code by sa/refspec.py."""
 
 
-def log_likelihood(reads, genotype, read_counts=None):
-    """Log likelihood of observed reads given a genotype."""
-    ploidy, n_base = genotype.shape
-    n_reads = len(reads)
-    llk = 0.0
-    for r in range(n_reads):
-        read_prob = 0
-        for h in range(ploidy):
-            read_hap_prod = 1.0
-            for j in range(n_base):
-                i = genotype[h, j]
-                val = reads[r, j, i]
-                if np.isnan(val):
-                    pass
-                else:
-                    read_hap_prod *= val
-            read_prob += read_hap_prod / ploidy
-        log_read_prob = np.log(read_prob)
-        if read_counts is not None:
-            log_read_prob *= read_counts[r]
-        llk += log_read_prob
-    return llk
 
 
-def log_likelihood_structural_change(reads, genotype, haplotype_indices, interval=None, read_counts=None):
-    """Log likelihood of observed reads given a genotype given a structural change."""
-    ploidy, n_base = genotype.shape
-    n_reads = len(reads)
-    if interval is None:
-        intvl = range(n_base)
-    else:
-        intvl = range(interval[0], interval[1])
-    llk = 0.0
-    for r in range(n_reads):
-        read_prob = 0
-        for h in range(ploidy):
-            read_hap_prod = 1.0
-            for j in range(n_base):
-                if j in intvl:
-                    h_ = haplotype_indices[h]
-                else:
-                    h_ = h
-                i = genotype[h_, j]
-                val = reads[r, j, i]
-                if np.isnan(val):
-                    pass
-                else:
-                    read_hap_prod *= val
-            read_prob += read_hap_prod / ploidy
-        log_read_prob = np.log(read_prob)
-        if read_counts is not None:
-            log_read_prob *= read_counts[r]
-        llk += log_read_prob
-    return llk
 
 
 def new_log_likelihood_cache(ploidy, n_base, max_alleles, max_size=2 ** 16):
@@ -86,3 +34,65 @@ def log_likelihood_structural_change_cached(reads, genotype, haplotype_indices, 
         llk = log_likelihood_structural_change(reads=reads, genotype=genotype, haplotype_indices=haplotype_indices, interval=interval, read_counts=read_counts)
         cache = arraymap.set(cache, genotype_new.ravel(), llk, empty_if_full=True)
     return (llk, cache)
+
+
+def log_likelihood(reads, genotype, read_counts=None):
+    """Log likelihood of observed reads given a genotype."""
+    ploidy, n_base = genotype.shape
+    n_reads = len(reads)
+    llk = 0.0
+    for r in range(n_reads):
+        read_prob = 0
+        for h in range(ploidy):
+            read_hap_prod = 1.0
+            for j in range(n_base):
+                i = genotype[h, j]
+                val = reads[r, j, i]
+                if np.isnan(val):
+                    pass
+                else:
+                    read_hap_prod *= val
+            read_prob += read_hap_prod / ploidy
+        log_read_prob = np.log(read_prob)
+        if read_counts is not None:
+            if read_counts[r] == 0:
+                log_read_prob = 0.0
+            else:
+                log_read_prob *= read_counts[r]
+        llk += log_read_prob
+    return llk
+
+
+def log_likelihood_structural_change(reads, genotype, haplotype_indices, interval=None, read_counts=None):
+    """Log likelihood of observed reads given a genotype given a structural change."""
+    ploidy, n_base = genotype.shape
+    n_reads = len(reads)
+    if interval is None:
+        intvl = range(n_base)
+    else:
+        intvl = range(interval[0], interval[1])
+    llk = 0.0
+    for r in range(n_reads):
+        read_prob = 0
+        for h in range(ploidy):
+            read_hap_prod = 1.0
+            for j in range(n_base):
+                if j in intvl:
+                    h_ = haplotype_indices[h]
+                else:
+                    h_ = h
+                i = genotype[h_, j]
+                val = reads[r, j, i]
+                if np.isnan(val):
+                    pass
+                else:
+                    read_hap_prod *= val
+            read_prob += read_hap_prod / ploidy
+        log_read_prob = np.log(read_prob)
+        if read_counts is not None:
+            if read_counts[r] == 0:
+                log_read_prob = 0.0
+            else:
+                log_read_prob *= read_counts[r]
+        llk += log_read_prob
+    return llk
